@@ -462,6 +462,16 @@ impl<'a> Gen<'a> {
                 _ => {}
             }
         }
+        // a bottom-most local collector collected while local spans opened under it are still open
+        if th.nest.is_empty() {
+            let mut i = th.scoped.len();
+            while i > 0 && th.scoped[i - 1].0 == 'l' {
+                i -= 1;
+            }
+            if i >= 1 && i < th.scoped.len() && th.scoped[i - 1].0 == 'c' && th.scoped[..i - 1].iter().all(|(k, _)| *k == 'l') {
+                cands.push((3, c(vec![s("lccollect"), s(th.scoped[i - 1].1), s(self.next_handle + 1)])));
+            }
+        }
         let locals_out: Vec<u64> = th.nest.iter().filter_map(|n| n.local).collect();
         let locals: Vec<u64> = th.scoped.iter().filter(|(k, id)| *k == 'l' && !locals_out.contains(id)).map(|(_, id)| *id).collect();
         if !locals.is_empty() && th.nest.len() < 2 {
@@ -592,7 +602,11 @@ impl<'a> Gen<'a> {
                 self.threads.get_mut(&t).unwrap().scoped.pop();
             }
             "lccollect" => {
-                self.threads.get_mut(&t).unwrap().scoped.pop();
+                let id = pu(&toks[1]);
+                let sc = &mut self.threads.get_mut(&t).unwrap().scoped;
+                if let Some(idx) = sc.iter().rposition(|(k, i)| *k == 'c' && *i == id) {
+                    sc.remove(idx);
+                }
                 let ls = pu(&toks[2]);
                 self.next_handle = self.next_handle.max(ls);
                 self.lsets.push(ls);
@@ -862,6 +876,7 @@ pub fn generate(seed: u64, first: usize, n: usize, prof_name: &str, out: &mut dy
         let mut rng = Rng::new(hseed);
         let (ring, stack, queue) = pick_caps(&mut rng, &prof);
         let _ = writeln!(out, "H {}-{}-{} {} {} {} {}", prof.name, seed, k, dbg as u8, ring, stack, queue);
+        let _ = writeln!(out, "W {}", std::time::SystemTime::now().duration_since(std::time::UNIX_EPOCH).map(|d| d.as_nanos()).unwrap_or(0));
         let orch = Orch::new(ring, stack, queue);
         let len = prof.len_lo + rng.below(prof.len_hi - prof.len_lo + 1);
         let wind = rng.chance(9, 10);
@@ -937,6 +952,7 @@ pub fn replay(path: &str, out: &mut dyn Write) {
             let queue: usize = f[5].parse().unwrap_or(10240);
             let dbg = cfg!(debug_assertions);
             let _ = writeln!(out, "H {} {} {} {} {}", f[1], dbg as u8, ring, stack, queue);
+            let _ = writeln!(out, "W {}", std::time::SystemTime::now().duration_since(std::time::UNIX_EPOCH).map(|d| d.as_nanos()).unwrap_or(0));
             // collect the actions of this history
             let mut acts: Vec<Vec<String>> = vec![];
             while i < lines.len() && !lines[i].starts_with('E') {
